@@ -76,7 +76,50 @@ func c14GenCase(g *Gen) {
 	for j := 0; j < n; j++ {
 		if g.Intn(100) < 14 {
 			// contract part: deploy (always a fresh code number), object graph writes and reads
-			switch c := g.Intn(10); {
+			switch c := g.Intn(14); {
+			case c >= 10:
+				// the deployment life cycle in separate steps, with snapshots in between, so that
+				// there are intervals in which ONLY the next contract changes
+				a := acct()
+				if len(contracts) > 0 && g.Intn(2) == 0 {
+					a = contracts[g.Intn(len(contracts))]
+				}
+				snap := func() {
+					if g.Intn(3) != 0 {
+						g.Emit("snap")
+						nsnap++
+					}
+				}
+				if g.Intn(4) != 0 {
+					g.Emit("init %d", a)
+					snap()
+				}
+				ncode++
+				g.Emit("dep %d %d", a, ncode)
+				snap()
+				switch g.Intn(5) {
+				case 0:
+					g.Emit("rej %d %d", a, ncode)
+					snap()
+					if g.Intn(2) == 0 {
+						g.Emit("acc %d %d", a, ncode) // error: already rejected
+					}
+				case 1:
+					ncode++
+					g.Emit("dep %d %d", a, ncode) // update deploy replaces the pending one
+					snap()
+					g.Emit("acc %d %d", a, ncode-g.Intn(2))
+					snap()
+				case 2:
+					// left pending
+				default:
+					g.Emit("acc %d %d", a, ncode)
+					snap()
+					contracts = append(contracts, a)
+				}
+				if g.Intn(3) == 0 && nsnap > 0 {
+					g.Emit("wreset %d", nsnap-1)
+				}
 			case c < 2 || len(contracts) == 0:
 				ncode++
 				a := acct()
@@ -195,9 +238,11 @@ func c14UnVal(b []byte) string {
 }
 
 // c14Deploy makes the account a contract whose current (accepted, active) contract has code c.
+func c14Code(c int) []byte { return []byte(fmt.Sprintf("verif-code-%d", c)) }
+
 func c14Deploy(as state.AccountState, c int) error {
 	as.InitContractAccount(common.NewAccountAddress(make([]byte, 20)))
-	code := []byte(fmt.Sprintf("verif-code-%d", c))
+	code := c14Code(c)
 	tx := c14CodeID(c)
 	if _, err := as.DeployContract(code, state.JavaEE, state.CTAppJava, nil, tx); err != nil {
 		return err
@@ -209,21 +254,43 @@ func c14CodeID(c int) []byte { return crypto.SHA3Sum256([]byte(fmt.Sprintf("veri
 
 var c14CodeNo = map[string]int{}
 
-// c14Contract renders "code" of an account ("-" = not a contract) and its current code id
-func c14Contract(ad interface {
-	IsContract() bool
-}, cur func() []byte) (string, []byte) {
-	if !ad.IsContract() {
+type c14ContractInfo interface {
+	CodeID() []byte
+	Status() state.ContractStatus
+}
+
+func c14No(id []byte) string {
+	if n, ok := c14CodeNo[string(id)]; ok {
+		return strconv.Itoa(n)
+	}
+	return "?"
+}
+
+// c14ContractStr renders the contract part: "-" = not a contract; else
+// c<current code or 0>n<next code or 0><p pending | r rejected | - none>; also returns the current code id
+func c14ContractStr(isContract bool, cur, next c14ContractInfo) (string, []byte) {
+	if !isContract {
 		return "-", nil
 	}
-	id := cur()
-	if id == nil {
-		return "?", nil
+	var id []byte
+	s := "c0"
+	if cur != nil {
+		id = cur.CodeID()
+		s = "c" + c14No(id)
 	}
-	if n, ok := c14CodeNo[string(id)]; ok {
-		return strconv.Itoa(n), id
+	if next != nil {
+		st := "?"
+		switch next.Status() {
+		case state.CSPending:
+			st = "p"
+		case state.CSRejected:
+			st = "r"
+		}
+		s += "n" + c14No(next.CodeID()) + st
+	} else {
+		s += "n0-"
 	}
-	return "?", id
+	return s, id
 }
 
 type c14Grapher interface {
@@ -239,12 +306,14 @@ func c14Graph(g c14Grapher, id []byte) string {
 }
 
 func c14SnapMeta(as state.AccountSnapshot) string {
-	code, id := c14Contract(as, func() []byte {
-		if c := as.Contract(); c != nil {
-			return c.CodeID()
-		}
-		return nil
-	})
+	var cur, next c14ContractInfo
+	if c := as.Contract(); c != nil {
+		cur = c
+	}
+	if c := as.NextContract(); c != nil {
+		next = c
+	}
+	code, id := c14ContractStr(as.IsContract(), cur, next)
 	g := "-"
 	if id != nil {
 		g = c14Graph(as, id)
@@ -253,12 +322,14 @@ func c14SnapMeta(as state.AccountSnapshot) string {
 }
 
 func c14StateMeta(as state.AccountState) (string, string, []byte) {
-	code, id := c14Contract(as, func() []byte {
-		if c := as.Contract(); c != nil {
-			return c.CodeID()
-		}
-		return nil
-	})
+	var cur, next c14ContractInfo
+	if c := as.Contract(); c != nil {
+		cur = c
+	}
+	if c := as.NextContract(); c != nil {
+		next = c
+	}
+	code, id := c14ContractStr(as.IsContract(), cur, next)
 	g := "-"
 	if id != nil {
 		g = c14Graph(as, id)
@@ -338,18 +409,45 @@ func c14Rebuild(dump string, salt int) []byte {
 	for n, it := range items {
 		as := ws.GetAccountState(c14Addr(it.a))
 		if it.k == -2 {
-			c, _ := strconv.Atoi(it.v)
-			if err := c14Deploy(as, c); err != nil {
-				panic(err)
-			}
-			if g := meta[it.a][1]; g != "-" {
-				ng := strings.SplitN(g, "/", 2)
-				nh, _ := strconv.Atoi(ng[0])
-				gv, _ := strconv.Atoi(ng[1])
-				if salt%2 == 0 {
-					as.SetObjGraph(c14CodeID(c), true, 7, []byte{9}) // overwritten below
+			// "c<cur>n<next><p|r|->"
+			cn := strings.SplitN(it.v[1:], "n", 2)
+			c, _ := strconv.Atoi(cn[0])
+			nx, _ := strconv.Atoi(cn[1][:len(cn[1])-1])
+			as.InitContractAccount(common.NewAccountAddress(make([]byte, 20)))
+			if c != 0 {
+				if salt%3 == 1 {
+					// via a rejected earlier deployment
+					as.DeployContract([]byte("x"), state.JavaEE, state.CTAppJava, nil, c14CodeID(999999))
+					as.RejectContract(c14CodeID(999999), c14CodeID(999999))
 				}
-				as.SetObjGraph(c14CodeID(c), true, nh, c14Val(gv))
+				if err := c14Deploy(as, c); err != nil {
+					panic(err)
+				}
+				if g := meta[it.a][1]; g != "-" {
+					ng := strings.SplitN(g, "/", 2)
+					nh, _ := strconv.Atoi(ng[0])
+					gv, _ := strconv.Atoi(ng[1])
+					if salt%2 == 0 {
+						as.SetObjGraph(c14CodeID(c), true, 7, []byte{9}) // overwritten below
+					}
+					as.SetObjGraph(c14CodeID(c), true, nh, c14Val(gv))
+				}
+			}
+			if nx != 0 {
+				if salt%2 == 1 {
+					ws.GetSnapshot()
+				}
+				if _, err := as.DeployContract(c14Code(nx), state.JavaEE, state.CTAppJava, nil, c14CodeID(nx)); err != nil {
+					panic(err)
+				}
+				if strings.HasSuffix(it.v, "r") {
+					if salt%5 == 2 {
+						ws.GetSnapshot()
+					}
+					if err := as.RejectContract(c14CodeID(nx), c14CodeID(nx)); err != nil {
+						panic(err)
+					}
+				}
 			}
 		} else if it.k < 0 {
 			b, _ := new(big.Int).SetString(it.v, 10)
@@ -501,6 +599,39 @@ func (r *c14Runner) Step(t []string, o *Oracle) string {
 		}
 		o.Count("op-deploy")
 		return "ok"
+	case t[0] == "init" && len(t) == 2:
+		a, ok := atoi(t[1], c14NAcct)
+		if !ok {
+			return "bad-op"
+		}
+		r.cleanSince = -1
+		r.ws.GetAccountState(c14Addr(a)).InitContractAccount(common.NewAccountAddress(make([]byte, 20)))
+		o.Count("op-init-contract")
+		return "ok"
+	case (t[0] == "dep" || t[0] == "acc" || t[0] == "rej") && len(t) == 3:
+		a, ok := atoi(t[1], c14NAcct)
+		c, ok2 := atoi(t[2], 1000000)
+		if !ok || !ok2 || c == 0 {
+			return "bad-op"
+		}
+		c14CodeNo[string(c14CodeID(c))] = c
+		r.cleanSince = -1
+		as := r.ws.GetAccountState(c14Addr(a))
+		var err error
+		switch t[0] {
+		case "dep":
+			_, err = as.DeployContract(c14Code(c), state.JavaEE, state.CTAppJava, nil, c14CodeID(c))
+		case "acc":
+			err = as.AcceptContract(c14CodeID(c), c14CodeID(c))
+		default:
+			err = as.RejectContract(c14CodeID(c), c14CodeID(c))
+		}
+		if err != nil {
+			o.Count("op-" + t[0] + "-err")
+			return "err"
+		}
+		o.Count("op-" + t[0])
+		return "ok"
 	case t[0] == "sog" && len(t) == 4:
 		a, ok := atoi(t[1], c14NAcct)
 		nh, ok2 := atoi(t[2], 1000)
@@ -524,8 +655,8 @@ func (r *c14Runner) Step(t []string, o *Oracle) string {
 		if !ok {
 			return "bad-op"
 		}
-		code, g, _ := c14StateMeta(r.ws.GetAccountState(c14Addr(a)))
-		if code == "-" {
+		_, g, id := c14StateMeta(r.ws.GetAccountState(c14Addr(a)))
+		if id == nil {
 			return "nocontract"
 		}
 		return g
@@ -534,11 +665,11 @@ func (r *c14Runner) Step(t []string, o *Oracle) string {
 		if !ok {
 			return "bad-op"
 		}
-		m := strings.SplitN(c14SnapMeta(r.ws.GetAccountSnapshot(c14Addr(a))), ":", 2)
-		if m[0] == "-" {
+		as := r.ws.GetAccountSnapshot(c14Addr(a))
+		if as.Contract() == nil {
 			return "nocontract"
 		}
-		return m[1]
+		return strings.SplitN(c14SnapMeta(as), ":", 2)[1]
 	case t[0] == "snap" && len(t) == 1:
 		before := r.live()
 		wss := r.ws.GetSnapshot()
